@@ -156,11 +156,13 @@ def sibling_keys(nodes):
 
 
 def has_duplicate_siblings(doc):
+    """Duplicate keys among the Assignment/Block siblings of one level reachable through blocks (the levels the
+    dict converters visit); at top level META counts as a sibling when the document has a META block."""
     top = sibling_keys(doc["sections"]) + (["META"] if doc["meta"] else [])
     if len(set(top)) != len(top):
         return True
-    for n in walk_nodes(doc["sections"]):
-        if n["n"] in ("b", "s"):
+    for n in walk_nodes(doc["sections"], through_sections=False):
+        if n["n"] == "b":
             ks = sibling_keys(n["c"])
             if len(set(ks)) != len(ks):
                 return True
@@ -169,7 +171,7 @@ def has_duplicate_siblings(doc):
 
 def has_assign_after_block(doc):
     """Some Block (reachable through blocks) has an Assignment child positioned after a Block child."""
-    for n in walk_nodes(doc["sections"]):
+    for n in walk_nodes(doc["sections"], through_sections=False):
         if n["n"] == "b":
             seen_block = False
             for c in n["c"]:
@@ -616,3 +618,100 @@ def strip_comments(doc):
             out.append(m)
         return out
     return {**doc, "sections": rec(doc["sections"])}
+
+
+# ---------------------------------------------------------------------------------------------
+# what the reader reads back as written (used to decide whether an OCTAVE rendering may be judged by
+# parsing it back: outside this set the C01/C02 reader/emitter findings apply, not C14/C15)
+# ---------------------------------------------------------------------------------------------
+def text_safe(doc):
+    if doc["front"] is not None and doc["gv"]:
+        return False
+
+    def val_ok(v, top=True):
+        t = v["t"]
+        if t == "pydict":
+            return False
+        if t == "imap":
+            return False            # a standalone inline map is re-read as a list of single-pair maps
+        if t == "list":
+            for x in v["v"]:
+                if x["t"] == "imap":
+                    if len(x["v"]) != 1 or not val_ok_imapval(x["v"][0][1]):
+                        return False
+                elif x["t"] in ("zone", "holo") or not val_ok(x, False):
+                    return False
+            return True
+        if t in ("zone", "holo"):
+            return top
+        return True
+
+    def val_ok_imapval(v):
+        if v["t"] == "list":
+            return all(x["t"] in ("null", "bool", "int", "float", "str") for x in v["v"])
+        return v["t"] in ("null", "bool", "int", "float", "str")
+
+    def nodes_ok(nodes, depth):
+        for n in nodes:
+            k = n["n"]
+            if k == "c":
+                if depth == 0:
+                    return False
+            elif k == "a":
+                if not val_ok(n["v"]) or n["k"] == "":
+                    return False
+            else:
+                kids = [c for c in n["c"] if c["n"] in ("a", "b", "s")]
+                if depth > 0 and not kids:
+                    return False
+                if not nodes_ok(n["c"], depth + 1):
+                    return False
+        return True
+
+    for _k, v in doc["meta"]:
+        if v["t"] == "pydict":
+            if not all(val_ok(x, False) and x["t"] != "pydict" for _k2, x in v["v"]):
+                return False
+        elif not val_ok(v, False):
+            return False
+    return nodes_ok(doc["sections"], 0)
+
+
+# ---------------------------------------------------------------------------------------------
+# known-deviation adjustments (what a rendering is expected to contain *given* an open finding)
+# ---------------------------------------------------------------------------------------------
+def drop_sections(doc):
+    """F24: the dict / markdown converters skip Section nodes (top level and inside blocks)."""
+    def rec(nodes):
+        out = []
+        for n in nodes:
+            if n["n"] == "s":
+                continue
+            if n["n"] == "b":
+                n = {**n, "c": rec(n["c"])}
+            out.append(n)
+        return out
+    return {**doc, "sections": rec(doc["sections"])}
+
+
+def collapse_duplicates(doc):
+    """F25: a Python dict keeps one entry per key: first position, last value."""
+    def rec(nodes):
+        order, last = [], {}
+        for n in nodes:
+            if n["n"] in ("a", "b"):
+                if n["k"] not in last:
+                    order.append(n["k"])
+                last[n["k"]] = n
+        out = []
+        for k in order:
+            n = last[k]
+            if n["n"] == "b":
+                n = {**n, "c": rec(n["c"])}
+            out.append(n)
+        return out
+    secs = rec([n for n in doc["sections"] if n["n"] in ("a", "b")])
+    meta = doc["meta"]
+    if meta and any(n["k"] == "META" for n in secs):
+        meta = []          # result["META"] is overwritten by the top-level node keyed META
+    return {**doc, "meta": meta, "sections": secs}
